@@ -63,6 +63,7 @@ class Ctx:
         self.trace = None
         self.path_notes = []
         self.depth_probe = None
+        self.env = {}                 # lane B3: environment stubs for awaited foreign futures
 
     # ------------------------------------------------------------------ decisions
     def _flush(self):
@@ -503,7 +504,10 @@ class Ctx:
         if k == 'closure':
             return ClosureV(rv[1], [self.rvalue(fn, fr, c) for c in rv[2]])
         if k == 'coroutine':
-            body = self.prog.closures.get(rv[1])
+            body = self.prog.closures.get(rv[1]) or self.prog.closures.get(rv[1].split(' (#')[0])
+            if body is None:
+                # `async fn`: the resume function is <fn>::{closure#0}
+                body = self.prog.fns.get(fn.name + '::{closure#0}')
             if body is None:
                 raise Unsupported('coroutine body for span ' + rv[1])
             return CoroV(body.name, [self.operand(fn, fr, u) for u in rv[2]])
@@ -517,10 +521,11 @@ class Ctx:
         src = self.prog.src
         if len(segs) >= 2 and segs[-2] in src.enums and last in src.enums[segs[-2]]:
             return EnumV(segs[-2], last, [v for _, v in vals])
-        if kind == 'unit' and len(segs) == 1:
-            for ty in ('TagClass', 'TagStructure'):
-                if last in src.enums.get(ty, ()):
-                    return EnumV(ty, last)
+        if len(segs) == 1 and last not in src.structs:
+            # a variant printed without its enum (imported with `use Enum::*` or a type-relative path)
+            cands = [ty for ty, vs in src.enums.items() if last in vs and ty not in SrcInfo.STD_ENUMS]
+            if len(cands) == 1:
+                return EnumV(cands[0], last, [v for _, v in vals])
         if last in src.enums and kind != 'named' and not vals and len(segs) >= 1 and last not in src.structs:
             raise Unsupported('enum path without variant ' + path)
         if kind == 'named':
@@ -663,13 +668,24 @@ class Ctx:
             tyname = getattr(a0, 'ty', None)
             if tyname is None and isinstance(a0, Tup) and len(a0) == 1:
                 tyname = getattr(deref(a0[0]), 'ty', None)
+            if tyname is None:
+                tyname = {'VecV': 'Vec', 'StrV': 'String', 'MapV': 'HashMap', 'SetV': 'HashSet'}.get(type(a0).__name__)
             if tyname:
                 cand = f'<{tyname} as {trait}>::{meth}'
                 if cand in self.prog.alias:
                     return self.run_compiled(self.prog.alias[cand], args)
+                pat = re.compile(r'^<' + re.escape(tyname) + r' as ' + re.escape(trait) + r'(<.*>)?>::' + re.escape(meth) + r'$')
+                hits = [f for k2, f in self.prog.alias.items() if pat.match(k2)]
+                if len(hits) == 1:
+                    return self.run_compiled(hits[0], args)
                 m = self.models.lookup(f'{tyname}:{key}', '')
                 if m is not None:
                     return m(self, call, *args)
+            # blanket impl over a type parameter (impl<T: Bound> Trait for T)
+            pat = re.compile(r'^<[A-Z][A-Za-z]? as ' + re.escape(trait) + r'(<.*>)?>::' + re.escape(meth) + r'$')
+            hits = [f for k2, f in self.prog.alias.items() if pat.match(k2)]
+            if len(hits) == 1:
+                return self.run_compiled(hits[0], args)
         if trait == 'Into' and args:
             # <S as Into<T>>::into -> <T as From<S>>::from, T named in the callee
             mm = re.search(r' as (?:std::convert::)?Into<(.*)>>::into$', strip_generics(call.callee), re.S)
